@@ -17,6 +17,19 @@ pub fn check(env: &Env, s: &str, rec: &mut Rec) {
     for p in [Prof::Ucm, Prof::Nick] {
         let got = api::rule(p, RuleK::Case, s);
         rec.eval();
+        let owned = api::rule_owned(p, RuleK::Case, s);
+        rec.eval();
+        if owned != got {
+            rec.violation(
+                "case-mapping-owned-argument-differs",
+                Witness {
+                    op: format!("{}::case_mapping_rule(String) vs (&str)", p.name()),
+                    case: format!("label={}", util::esc(s)),
+                    expected: api::show_r(&got),
+                    observed: api::show_r(&owned),
+                },
+            );
+        }
         if got != Out::Ok(want.clone()) {
             rec.violation(
                 "case-mapping-differs-from-per-character-lowercase",
@@ -157,6 +170,20 @@ pub fn run(env: &Env) -> Rec {
                     }
                     check(env, &s, rec);
                 }
+                // next to the code points that share its low 16 bits, both orders
+                for k in 1..=2u32 {
+                    if let Some(d) = char::from_u32(cp ^ (k << 16)) {
+                        s.clear();
+                        s.push(d);
+                        s.push(c);
+                        check(env, &s, rec);
+                        s.clear();
+                        s.push('A');
+                        s.push(c);
+                        s.push(d);
+                        check(env, &s, rec);
+                    }
+                }
                 if changes(c) {
                     s.clear();
                     s.push(c);
@@ -169,7 +196,7 @@ pub fn run(env: &Env) -> Rec {
     });
     rec.merge(r1);
     rec.exhaustive("every Unicode scalar value c in the contexts c, a c, A c, c A, e-acute c z, U+01C5 c, c c");
-    let max_len = if env.quick() { 5 } else { 6 };
+    let max_len = if env.quick() { 6 } else { 7 };
     let k = ALPHA.len();
     let total = util::n_strings(k, max_len);
     let per = 4096usize;
@@ -186,7 +213,7 @@ pub fn run(env: &Env) -> Rec {
     });
     rec.merge(r2);
     rec.exhaustive(format!("all strings up to length {} over 11 cased/uncased symbols incl. titlecase, U+0130, sigma, sharp s, 4-byte capital", max_len));
-    let n = env.n(100_000, 3_000_000);
+    let n = env.n(1_000_000, 30_000_000);
     let per = 2000usize;
     let r3 = par(n.div_ceil(per), |c, rec| {
         let mut rng = Rng::stream(env.seed, 0x10_0000 + c as u64);
@@ -205,6 +232,27 @@ pub fn run(env: &Env) -> Rec {
         }
     });
     rec.merge(r3);
+    let n_long = env.n(15_000, 500_000);
+    let per = 200usize;
+    let r4 = par(n_long.div_ceil(per), |c, rec| {
+        let mut rng = Rng::stream(env.seed, 0x10_C000 + c as u64);
+        let p = env.pools();
+        super::hostile::drive(
+            &mut rng,
+            per,
+            65536,
+            |rng| {
+                let mut t = String::new();
+                for _ in 0..rng.range(1, 3) {
+                    let k = *rng.pick(&[gen::Kind::Cased, gen::Kind::Title, gen::Kind::AsciiUpper, gen::Kind::SpecialWord, gen::Kind::Upper, gen::Kind::Letter]);
+                    gen::push_kind(p, rng, k, &mut t);
+                }
+                t
+            },
+            |s| check(env, s, rec),
+        );
+    });
+    rec.merge(r4);
     rec
 }
 
